@@ -572,7 +572,7 @@ func preemptions(x *vsync.Exec) int {
 	return n
 }
 
-var pogrebFrame = regexp.MustCompile(`github\.com/akrylysov/pogreb(?:/fs)?\.[A-Za-z0-9_.()*]+`)
+var pogrebFrame = regexp.MustCompile(`github\.com/akrylysov/pogreb(?:/fs)?\.(?:\(\*?\w+\)\.)?\w+(?:\.func\d+)*`)
 
 // panicSummary renders a panic deterministically: its value and the pogreb functions on the stack
 // (no goroutine numbers, addresses or argument values, which differ between runs of one schedule).
